@@ -39,13 +39,16 @@ CLAIMS = {
  'C02': dict(
   text='The numbering core of diffIOSACLs (resequence, numbered inserts, deletes, joined moves, direction-aware move suppression inside '
        'blocks, block splitting) is an executable Gallina model compared number by number with the implementation and executed on a strict '
-       'numbered-ACL device; equivalence modulo permutation inside same-action runs is evaluated in Coq on both scripts. Whole IOS '
+       'numbered-ACL device; for move-free scripts convergence is proved for all scripts, otherwise equivalence modulo permutation inside '
+       'same-action runs is evaluated in Coq on both scripts. Whole IOS '
        'configurations (interfaces, shared ACLs, routes) are executed on the Coq device semantics with a silent second compare.',
   design_ref='DESIGN.md section 4, C02',
-  note='Trusted: as C01. Partial: the general theorem ios_acl_equiv is not yet proved (stated in DESIGN.md); the model is tied by exact '
-       'correspondence and its convergence is evaluated per case in Coq. Log attribute differences inside a block are not applied by the '
-       'tool (documented observation, not part of filtering).',
-  technique='Executable Gallina model of the IOS numbering core checked against the implementation + Coq device semantics as oracle'),
+  note='Trusted: as C01. Partial: the convergence theorem (C02_ios_fresh_script_converges_partial) covers every edit script in which no line '
+       'occurs twice (nothing is moved) with inserted runs shorter than 10000 lines: all numbered commands are accepted and the result is '
+       'exactly the target ACL. Scripts with moves (a line deleted and inserted again, the direction-aware suppression inside a block) are '
+       'covered by the exact correspondence and the per-case evaluation only. Log attribute differences inside a block are not applied by '
+       'the tool (documented observation, not part of filtering).',
+  technique='Coq theorem (numbered inserts and deletes converge for all move-free edit scripts) + executable Gallina model of the full numbering core checked against the implementation + Coq device semantics as oracle'),
  'C07': dict(
   text='C07_frame_every_prefix: on the strict device semantics an accepted command changes only the objects it names, hence a script that '
        'never names an ACL, object-group, binding or route outside Netspoc\'s scope leaves them untouched after every prefix (interrupted runs '
